@@ -14,11 +14,11 @@ LABEL_POOLS = [
 ]
 
 
-def _graph(labels, triples, rng, drop_attrs=False):
+def _graph(labels, triples, rng, drop_attrs=False, np_lags=False):
     G = nx.MultiDiGraph()
     G.add_nodes_from(labels)
     for (u, v, lag) in triples:
-        attrs = {"lag": lag, "cmi": float(rng.integers(0, 100)) / 16, "p_value": float(rng.integers(0, 17)) / 16}
+        attrs = {"lag": np.int64(lag) if np_lags else lag, "cmi": float(rng.integers(0, 100)) / 16, "p_value": float(rng.integers(0, 17)) / 16}
         if drop_attrs:
             for k in ("cmi", "p_value"):
                 if rng.random() < 0.3:
@@ -34,7 +34,7 @@ def _requests(G):
     for u, v, k, d in G.edges(keys=True, data=True):
         e = {"u": pos[u], "v": pos[v]}
         if "lag" in d:
-            e["lag"] = int(d["lag"])
+            e["lag"] = int(d["lag"])   # (np.int64 lags denote the same lags)
         if "cmi" in d:
             e["cmi"] = num(d["cmi"])
         if "p_value" in d:
@@ -68,7 +68,7 @@ def check(run, driver):
         m = int(rng.integers(0, min(len(all_tr), 3 * n + 2) + 1))
         idx = rng.choice(len(all_tr), size=m, replace=False) if m else []
         tr = [all_tr[i] for i in idx]
-        graphs.append(("random", _graph(labels, tr, rng, drop_attrs=True), tr))
+        graphs.append(("random", _graph(labels, tr, rng, drop_attrs=True, np_lags=(it % 3 == 1)), tr))
     reqs, meta = [], []
     for suite, G, tr in graphs:
         G0 = G.copy()
@@ -110,6 +110,31 @@ def check(run, driver):
         if not nx.utils.graphs_equal(G, G0):
             run.prop_fail("graph modified", case, {"clause": "purity"})
         meta.append(("comp", case, None, C, pos)); reqs.append({"op": "companion", "edges": es, "n": n})
+    # ---- histories: attributes changed IN PLACE (edge and node counts unchanged) between two calls on the same graph object
+    for it in range(60 if thorough else 20):
+        n = int(rng.integers(2, 6)); K = int(rng.integers(1, 4))
+        all_tr = [(u, v, l) for u in range(n) for v in range(n) for l in range(0, K + 1)]
+        idx = rng.choice(len(all_tr), size=min(len(all_tr), int(rng.integers(2, 8))), replace=False)
+        tr = [all_tr[i] for i in idx]
+        G = _graph(list(range(n)), tr, rng)
+        linalg.companion_matrix(G); [linalg.subnetwork(G, k) for k in range(K + 2)]
+        # move one edge to another lag / change its numbers, keeping the triples unique
+        u, v, key, d = list(G.edges(keys=True, data=True))[int(rng.integers(0, G.number_of_edges()))]
+        free = [l for l in range(0, K + 2) if (u, v, l) not in {(a, b, dd["lag"]) for a, b, dd in G.edges(data=True)}]
+        if free:
+            d["lag"] = int(free[int(rng.integers(0, len(free)))])
+        d["p_value"] = 0.0 if it % 2 else d["p_value"] / 2
+        d["cmi"] = d["cmi"] + 1.0
+        fresh = nx.MultiDiGraph(); fresh.add_nodes_from(G.nodes()); fresh.add_edges_from((a, b, dict(dd)) for a, b, dd in G.edges(data=True))
+        case = {"nodes": list(range(n)), "edges_after_change": [(a, b, dd) for a, b, dd in G.edges(data=True)]}
+        run.case("history", [n, K, [(a, b, dd) for a, b, dd in G.edges(data=True)]], True)
+        same = np.array_equal(linalg.companion_matrix(G), linalg.companion_matrix(fresh))
+        for k in range(K + 3):
+            h1, h2 = linalg.subnetwork(G, k), linalg.subnetwork(fresh, k)
+            same = same and sorted(map(repr, h1.edges(data=True))) == sorted(map(repr, h2.edges(data=True)))
+        if not same:
+            run.prop_fail("after an edge attribute was changed in place, the subnetworks / companion matrix of the same graph object differ from those of a fresh graph with the same edges (stale state)",
+                          case, {"clause": "history"})
     resp = driver.run_sharded(reqs)
     for (kind, case, k, obj, pos), r in zip(meta, resp):
         if "ok" not in r:
